@@ -97,7 +97,9 @@ class LockGen:
         self.chain(t, lk, 'SIX', v, ops, 3)
 
     def sec_odd(self, t, lk, ops):
-        r = self.rng.randrange(6)
+        r = self.rng.randrange(7)
+        if r == 6:
+            r = 4
         s0, s1 = self.var(t, 'S'), self.var(t, 'S', 1)
         i0, x0 = self.var(t, 'SIX'), self.var(t, 'X')
         if r == 0:
@@ -109,9 +111,20 @@ class LockGen:
         elif r == 3:
             ops += [f'massign {s0} {s1}', f'bool {s0}', f'mctor {s1} {s0}', f'bool {s1}']
         elif r == 4 and self.nlocks >= 2:
-            # move assignment over an owning guard (locks taken in ascending order: no cycle)
-            ops += [f'lock S {s0} 0', f'lock S {s1} 1', f'massign {s0} {s1}', f'bool {s0}', f'bool {s1}',
-                    f'payrd 1', f'dtor {s0}']
+            # move assignment / move construction over an owning guard, every guard kind
+            # (locks taken in ascending order by every thread: no cycle)
+            kinds = ['S', 'SIX', 'X'] + (['Comp'] if self.comp == 'opt' else [])
+            kd = self.rng.choice(kinds)
+            a, b = self.var(t, kd), self.var(t, kd, 1)
+            how = self.rng.choice(['massign', 'massign', 'mctor'])
+            if kd == 'Comp':
+                ops += [f'prep {a} 0', f'prep {b} 1', f'{how} {a} {b}', f'bool {a}', f'bool {b}', f'cverify {a}',
+                        f'dtor {b}', f'dtor {a}']
+            else:
+                ops += [f'lock {kd} {a} 0', f'lock {kd} {b} 1', f'{how} {a} {b}', f'bool {a}', f'bool {b}']
+                if kd != 'X' or True:
+                    ops.append('payrd 1')
+                ops += [f'dtor {b}', f'dtor {a}']
         else:
             # a consumed guard converts to nothing
             ops += [f'lock SIX {i0} {lk}', f'upg {x0} {i0}', f'upg {self.var(t, "X", 1)} {i0}',
@@ -161,6 +174,15 @@ class LockGen:
         progs = []
         for t in range(nthreads):
             progs.append(self.program(t, episodes or self.rng.randrange(1, 4)))
+        if self.comp == 'opt' and self.nlocks >= 2 and self.rng.random() < 0.5:
+            # a writer that holds X for a while, next to a PrepareRead caller that then overwrites / moves the
+            # (possibly owning) composite guard: the shared-lock fallback of PrepareRead needs exactly this
+            x = self.var(0, 'X')
+            progs[0] = [f'lock X {x} 0'] + [f'paywr 0 {self.nextval()}' for _ in range(self.rng.randrange(1, 4))] + [f'dtor {x}'] + progs[0]
+            a, b = self.var(1, 'Comp'), self.var(1, 'Comp', 1)
+            how = self.rng.choice(['massign', 'mctor'])
+            progs[1] = [f'prep {a} 0', f'bool {a}', f'prep {b} 1', f'{how} {a} {b}', f'bool {a}', f'bool {b}',
+                        f'cverify {a}', f'dtor {b}', f'dtor {a}'] + progs[1]
         # probe thread: after everybody else has finished, every lock must be free for LockX
         pt = nthreads
         px = self.var(pt, 'X')
@@ -183,7 +205,7 @@ def make_scenarios(comp, seed, count, prefix):
     rng = random.Random(f'{comp}-{seed}')
     out = []
     for i in range(count):
-        nlocks = 2 if rng.random() < 0.25 else 1
+        nlocks = 2 if rng.random() < 0.35 else 1
         g = LockGen(comp, rng, nlocks=nlocks)
         out.append(g.scenario(f'{prefix}{i}'))
     return out
